@@ -229,6 +229,26 @@ type listener struct {
 	closed chan struct{}
 	once   sync.Once
 	nclose int32
+
+	// late, when set, is a connection that was accepted by the "kernel" before the listener was
+	// closed and that the pending Accept still returns afterwards (a legal net.Listener
+	// behaviour: Accept and Close race). It is handed out once, lateDelay after Close - long
+	// enough for the stopping call to have finished its sweep over the connection table; the
+	// delay decides only what a run can detect, not what is right: whenever it arrives, somebody
+	// has to close it.
+	lmu       sync.Mutex
+	late      net.Conn
+	lateGiven int32
+}
+
+const lateDelay = 20 * time.Millisecond
+
+func (l *listener) takeLate() net.Conn {
+	l.lmu.Lock()
+	defer l.lmu.Unlock()
+	c := l.late
+	l.late = nil
+	return c
 }
 
 func newListener() *listener {
@@ -240,15 +260,28 @@ func (l *listener) Accept() (net.Conn, error) {
 	// notification before it goes on, so "queued and closed at once" does not occur
 	select {
 	case <-l.closed:
-		return nil, net.ErrClosed
+		return l.afterClose()
 	default:
 	}
 	select {
 	case c := <-l.ch:
 		return c, nil
 	case <-l.closed:
-		return nil, net.ErrClosed
+		return l.afterClose()
 	}
+}
+
+func (l *listener) afterClose() (net.Conn, error) {
+	if c := l.takeLate(); c != nil {
+		// not a sleep: a sleeping goroutine would look parked to the "nobody will close it any
+		// more" judgement of the reclaim phase while this connection is still to come
+		for t0 := time.Now(); time.Since(t0) < lateDelay; {
+			runtime.Gosched()
+		}
+		atomic.AddInt32(&l.lateGiven, 1)
+		return c, nil
+	}
+	return nil, net.ErrClosed
 }
 
 func (l *listener) Close() error {
@@ -283,14 +316,15 @@ type conn struct {
 }
 
 type world struct {
-	c      Case
-	caps   Caps
-	res    *Result
-	engine *nbhttp.Engine
-	ln     *listener
-	conns  map[int]*conn
-	all    []*conn
-	trace  bool
+	lateConn *conn // endings "*-late": the connection the closed listener still hands out
+	c        Case
+	caps     Caps
+	res      *Result
+	engine   *nbhttp.Engine
+	ln       *listener
+	conns    map[int]*conn
+	all      []*conn
+	trace    bool
 
 	mu        sync.Mutex
 	opens     []string // "blk" / "nb" per open notification, in order
@@ -1598,8 +1632,33 @@ func (w *world) callStop(name string, f func() error) (returned bool, err error)
 	}
 }
 
+// armLate prepares the connection that the listener's pending Accept returns after the stopping
+// call has closed the listener (endings "stop-late", "shutdown-late").
+func (w *world) armLate() {
+	srv, cli, ino, err := w.newPair()
+	if err != nil {
+		w.capHit("socketpair: " + err.Error())
+		return
+	}
+	half := "B"
+	if w.c.Cfg.Mode == "blocking" {
+		half = "A"
+	}
+	c := &conn{id: 90, cli: cli, br: bufio.NewReaderSize(cli, 4096), srv: srv, srvIno: ino, state: "http", half: half, open: true, cliOpen: true}
+	w.all = append(w.all, c)
+	w.lateConn = c
+	w.ln.lmu.Lock()
+	w.ln.late = srv
+	w.ln.lmu.Unlock()
+	w.res.count("late_accepts_armed", 1)
+}
+
 func (w *world) end() {
 	kind := w.c.End
+	if strings.HasSuffix(kind, "-late") {
+		kind = strings.TrimSuffix(kind, "-late")
+		w.armLate()
+	}
 	if w.dead && kind == "shutdown" {
 		// the history did not run to its end: only clean up
 		kind = "stop"
@@ -1635,6 +1694,26 @@ func (w *world) end() {
 	}
 	if atomic.LoadInt32(&w.ln.nclose) == 0 {
 		w.obs("c18", "listener-not-closed", "the stopping call returned=%v and never closed the listener", returned)
+	}
+	if w.lateConn != nil {
+		// whoever takes the late connection out of the listener owns it: the engine's accept loop
+		// (then the engine has to close it, judged below like every other connection), or - when
+		// no Accept call was pending or came after the close, e.g. a Stop that overtakes the start
+		// of the accept loop - the harness, standing in for the kernel that drops the accept queue
+		// of a closed listener
+		if c := w.ln.takeLate(); c != nil {
+			_ = c.Close()
+			w.closeCli(w.lateConn)
+			for i, x := range w.all {
+				if x == w.lateConn {
+					w.all = append(w.all[:i], w.all[i+1:]...)
+					break
+				}
+			}
+			w.res.count("late_accepts_never_requested_by_the_engine", 1)
+		} else {
+			w.res.count("late_accepts_returned_after_listener_close", 1)
+		}
 	}
 	w.logf("%s returned=%v", kind, returned)
 	w.reclaim(kind, returned)
